@@ -74,7 +74,20 @@ def call(kernel, a, W=lambda x: x):
     if kernel == "ovsplit":
         r = SP._overlap_split(W(f(a["st"])), W(f(a["en"])), float(a["L"]), 1.0 - a["step"] / a["L"])
         return [[int(round(x)), int(round(y))] for x, y in r]
+    if kernel == "eta":
+        r = P._jitperievent_trigger_average(W(f(a["ta"])), W(np.asarray(a["ca"], dtype=np.int64).reshape(-1, 1)), W(f(a["tt"])), W(f(a["dd"])),
+                                            W(f(a["st"])), W(f(a["en"])), W(np.asarray(a["w"], dtype=np.int64)), float(a["bs"]))
+        return [float(v) for v in r[:, 0]]
     raise ValueError(kernel)
+
+
+def same(kernel, x, y):
+    """equality of two canonical results; the event-trigger average is a float computation compared within 1e-9"""
+    if kernel == "eta":
+        return (isinstance(x, list) and isinstance(y, list) and len(x) == len(y)
+                and all(abs(p - q) <= 1e-9 * max(1.0, abs(p), abs(q)) for p, q in zip(x, y)))
+    import json
+    return json.dumps(x) == json.dumps(y)
 
 
 def line(kernel, a):
@@ -106,6 +119,9 @@ def line(kernel, a):
         return "pericont %s %s %s %s %d %d" % (enc(a["ts"]), enc(a["tt"]), enc(a["st"]), enc(a["en"]), a["w"][0], a["w"][1])
     if kernel == "ovsplit":
         return "ovsplit %s %s %d %d" % (enc(a["st"]), enc(a["en"]), a["L"], a["step"])
+    if kernel == "eta":
+        return "eta %s %s %s %s %s %s %d %d %d" % (enc(a["ta"]), enc(a["ca"]), enc(a["tt"]), enc(a["dd"]), enc(a["st"]), enc(a["en"]),
+                                                   a["w"][0], a["w"][1], a["bs"])
     raise ValueError(kernel)
 
 
@@ -136,6 +152,9 @@ def parse(kernel, o):
         return [] if o == "-" else [[int(v) for v in p.split(":")] for p in o.split(",")]
     if kernel == "xcorr":
         return dec(o)
+    if kernel == "eta":
+        from fractions import Fraction
+        return [] if o in ("-", "") else [float(Fraction(p)) for p in o.split(",")]
     if kernel == "pericont":
         a, b = o.split("|")
         return [dec(a), [] if b == "-" else [[int(v) for v in p.split(":")] for p in b.split(",")]]
